@@ -256,7 +256,9 @@ def eval_graph(spec, max_orders):
         asm, sched, starts, err = run_graph(spec, schedule)
         n += 1
         case = {"graph": spec, "schedule": list(sched.taken)}
-        if isinstance(err, Hang):
+        if type(err).__name__ == "StepLimit":
+            pass  # inconclusive (max_steps=400 is far above what these graphs need)
+        elif isinstance(err, Hang):
             vs.append(Violation(("C05", "work-queue-hang"), f"{err}; graph {spec}", case, {"rule": "hang"}))
         elif err is not None:
             vs.append(Violation(("C05", "work-queue-raises"), f"{type(err).__name__}: {err}; graph {spec}",
